@@ -12,7 +12,7 @@ Definition C06_statement : Prop := forall fuel p, fst (y_run fuel p) = g_run fue
     which the run of Y raises none of the flags that delimit the known findings: a deferred call
     panics while others of its activation remain / a variable argument of a deferred call changes
     before the call / a re-panicked recovered value is displayed / a recover site runs twice after a
-    recovery / a deferred call calls a closure of its activation / a forward-declared function is
+    recovery / a forward-declared function is
     deferred inside a literal.  Compared: output trace (prints, value seen by every recover, results
     returned by recovered functions) and the end (normal, or the panic value). *)
 Theorem C06_partial :
@@ -157,11 +157,19 @@ Theorem C06_recover_stale_refuted :
 Proof. exact recover_stale_refuted. Qed.
 Print Assumptions C06_recover_stale_refuted.
 
-Theorem C06_closure_lock_refuted :
+(** regression (finding closure-lock, repaired in /repo by abe7a69): a closure of an activation
+    called from its deferred calls returns; the former witness lies inside the side condition *)
+Theorem C06_closure_lock_regression :
   g_run 5 w_closure_lock = ([EPrint 1 None; EClo 2; EPrint 3 None], FinOk)
-  /\ fst (y_run 5 w_closure_lock) = ([EPrint 1 None; EClo 2], FinHang).
-Proof. exact closure_lock_refuted. Qed.
-Print Assumptions C06_closure_lock_refuted.
+  /\ fst (y_run 5 w_closure_lock) = ([EPrint 1 None; EClo 2; EPrint 3 None], FinOk)
+  /\ c06_side 5 w_closure_lock = true.
+Proof. exact closure_lock_regression. Qed.
+Print Assumptions C06_closure_lock_regression.
+
+Theorem C06_closure_call_never_hangs :
+  forall p cy self t f anc, y_stmt p cy self (SCallClosure t) f anc = (f, anc, [EClo t], false, Fall).
+Proof. exact closure_call_never_hangs. Qed.
+Print Assumptions C06_closure_call_never_hangs.
 
 Theorem C06_forward_lit_refuted :
   g_run 5 w_forward_lit = ([EPrint 2 (Some 4%Z); EPrint 1 None], FinOk)
